@@ -32,7 +32,7 @@ CONFIG = {
     'quick': {'shards': 16, 'cases': 6, 'timeout': 900, 'floor': 40, 'case_timeout': 400},
     'thorough': {'shards': 32, 'cases': 40, 'timeout': 3400, 'floor': 500},
 }
-REQUIRED = ['bolfi_sampling_phases', 'bolfi_second_phase_after_update', 'bolfi_logpdf_points', 'bolfi_fast_predict_checked',
+REQUIRED = ['fast_gradient_called_before_predict', 'bolfi_surrogate_order_permuted', 'bolfi_sampling_phases', 'bolfi_second_phase_after_update', 'bolfi_logpdf_points', 'bolfi_fast_predict_checked',
             'bolfi_fast_gradient_checked', 'contract_logpdf', 'contract_predict', 'gps_fitted', 'logpdf_definition_checked', 'logpdf_outside_checked', 'logpdf_on_bound_checked', 'gradient_checked',
             'fastpath_predict_checked', 'fastpath_gradient_checked', 'evidence_order_checked', 'fast_after_update_without_slow_call',
             'shape_scalar_or_1d', 'shape_2d', 'far_tail_gradient_checked', 'default_threshold']
@@ -97,8 +97,15 @@ def _compare_fast(ctx, gp, x, where):
     prev = gp.is_sampling
     gp.is_sampling = True
     try:
-        mu, var = gp.predict(x)
-        gm, gv = gp.predictive_gradients(x)
+        # which accelerated call comes first after a change of the surrogate varies
+        ctx.c10_calls = getattr(ctx, 'c10_calls', 0) + 1
+        if ctx.c10_calls % 2:
+            ctx.event('fast_gradient_called_before_predict')
+            gm, gv = gp.predictive_gradients(x)
+            mu, var = gp.predict(x)
+        else:
+            mu, var = gp.predict(x)
+            gm, gv = gp.predictive_gradients(x)
     finally:
         gp.is_sampling = prev
     ctx.event('fastpath_predict_checked')
@@ -124,28 +131,29 @@ def _sim2(a, b, batch_size=1, random_state=None):
 def _bolfi_contracts(ctx, wide):
     """Post-conditions that stay attached to the real methods while BOLFI fits and samples."""
     from vmon.contracts import Spec
-    lo = np.array([B2['a'][0], B2['b'][0]])
-    hi = np.array([B2['a'][1], B2['b'][1]])
-
-    def prior_lp(x):
+    def prior_lp(x, names):
         x = np.atleast_2d(x)
         tot = np.zeros(len(x))
-        for i in range(2):
+        for i, n in enumerate(names):
+            lo_, hi_ = B2[n]
             if wide:
-                tot = tot + ss.norm((lo[i] + hi[i]) / 2, hi[i] - lo[i]).logpdf(x[:, i])
+                tot = tot + ss.norm((lo_ + hi_) / 2, hi_ - lo_).logpdf(x[:, i])
             else:
                 with np.errstate(all='ignore'):
-                    tot = tot + ss.uniform(lo[i], hi[i] - lo[i]).logpdf(x[:, i])
+                    tot = tot + ss.uniform(lo_, hi_ - lo_).logpdf(x[:, i])
         return tot
 
     def logpdf_post(result, self, x):
+        names = list(self.model.parameter_names)          # column i of a query point is the surrogate's i-th parameter
+        lo = np.array([B2[n][0] for n in names])
+        hi = np.array([B2[n][1] for n in names])
         xx = np.asarray(x, dtype=float).reshape(-1, 2)
         got = np.ravel(result)
         if len(got) != len(xx):
             return 'logpdf returned %d values for %d points' % (len(got), len(xx))
         inside = np.all((xx >= lo) & (xx <= hi), axis=1)
         mu, var = self.model.predict(xx)
-        ref = ss.norm.logcdf((float(self.threshold) - np.ravel(mu)) / np.sqrt(np.ravel(var))) + prior_lp(xx)
+        ref = ss.norm.logcdf((float(self.threshold) - np.ravel(mu)) / np.sqrt(np.ravel(var))) + prior_lp(xx, names)
         for g, r, ins in zip(got, ref, inside):
             ctx.event('bolfi_logpdf_points')
             if not ins:
@@ -233,12 +241,13 @@ def run_bolfi(ctx, case):
     S = elfi.Simulator(_sim2, m['a'], m['b'], observed=np.array([[1.5, 0.5]]), model=m, name='S')
     elfi.Distance('euclidean', S, model=m, name='d')
     kw = dict(batch_size=case['bs'], initial_evidence=case['init'], update_interval=case['ui'], seed=case['seed'])
+    order = ['b', 'a'] if case['seed'] % 2 else ['a', 'b']      # a user-supplied surrogate may list the parameters in its own order
+    ctx.event('bolfi_surrogate_order_permuted', order == ['b', 'a'])
+    gp = GPyRegression(order, bounds=B2)
+    kw.update(target_model=gp)
     if case['acq'] == 'uniform':
         # an acquisition rule that never calls predict(): nothing but update() touches the surrogate between two sampling phases
-        gp = GPyRegression(['a', 'b'], bounds=B2)
-        kw.update(target_model=gp, acquisition_method=UniformAcquisition(gp, prior=ModelPrior(m), seed=case['seed']))
-    else:
-        kw.update(bounds=B2)
+        kw.update(acquisition_method=UniformAcquisition(gp, prior=ModelPrior(m, parameter_names=order), seed=case['seed']))
     bolfi = elfi.BOLFI(m['d'], **kw)
     mk = {'max_depth': 4} if case['algorithm'] == 'nuts' else {}
     try:
